@@ -527,15 +527,6 @@ theorem clip_shrinks_abs (a : AState) (r : Rect) (L C : Int) (h : (clip a r).cli
   have : (a.clip L C && r.memb (L - a.xlLine) (C - a.xlCol)) = true := h
   rw [Bool.and_eq_true] at this; exact this.1
 
-theorem ProgSafe_append : ∀ (p q : List Op) (a : AState), ProgSafe a (p ++ q) → ProgSafe a p ∧ ProgSafe (run a p) q := by
-  intro p
-  induction p with
-  | nil => intro q a h; exact ⟨trivial, h⟩
-  | cons o r ih =>
-    intro q a h
-    obtain ⟨h1, h2⟩ := ih q (step a o) h.2
-    exact ⟨⟨h.1, h1⟩, h2⟩
-
 theorem absrun_append (a : AState) (p q : List Op) : RBAbs.run a (p ++ q) = RBAbs.run (RBAbs.run a p) q := by
   unfold RBAbs.run; rw [List.foldl_append]
 
@@ -543,10 +534,6 @@ end Tickit.RBAbs
 
 namespace Tickit.RB
 open Tickit.RBAbs
-
-/-- Every operation except `restore` is unconditionally safe. -/
-theorem opSafe_of_not_restore (a : AState) (o : Op) (h : o ≠ .restore) : OpSafe a o := by
-  cases o <;> first | trivial | exact absurd rfl h
 
 theorem run_append (rb : RB) (p q : List Op) : RB.run rb (p ++ q) = RB.run (RB.run rb p) q := by
   unfold RB.run; rw [List.foldl_append]
